@@ -4,6 +4,9 @@ import "verif/harness/core"
 
 // Registry maps property ids to their check functions.
 var Registry = map[string]func(*core.Ctx) error{
+	"C01": C01,
+	"C02": C02,
+	"C03": C03,
 	"C07": C07,
 	"C08": C08,
 }
